@@ -206,7 +206,7 @@ def run(case: dict) -> Outcome:
         if isinstance(g, str) and g.startswith('<error'):
             out.violate(f'view-roundtrip:{name}:unreadable', f'v{case["version"]}', f'view {name} cannot be read back: {g}; groups {case["groups"]}')
             continue
-        d = diff(w, g)
+        d = diff(w, g, tol_default=0.0)
         if d is not None:
             fld = generic_path(d[0]).strip('/').replace('/', '.') or 'value'
             if desc is not None:
